@@ -46,6 +46,7 @@ CONSTANTS
   FIXWRAP = TRUE
   FIXHOPS = {fixhops}
   FIXOHEXP = TRUE
+  FIXOHFLG = TRUE
   FIXOHSEC = TRUE
   XorAcc <- SymXor
   MAXLEN = {maxlen}
@@ -65,6 +66,7 @@ CONSTANTS
   FIXWRAP = TRUE
   FIXHOPS = TRUE
   FIXOHEXP = {fixohexp}
+  FIXOHFLG = {fixohflg}
   FIXOHSEC = {fixohsec}
   XorAcc <- SymXor
   GEN = {gen}
@@ -80,6 +82,7 @@ CONSTANTS
   FIXWRAP = TRUE
   FIXHOPS = TRUE
   FIXOHEXP = TRUE
+  FIXOHFLG = TRUE
   FIXOHSEC = TRUE
   XorAcc <- SymXor
   MAXLEN = {maxlen}
@@ -145,7 +148,7 @@ def replay_cells(c, binp, cells, tag):
                 stats[fam] = stats.get(fam, 0) + 1
                 if fam == "model" and cell.get("mvalid"):
                     stats["model_accepted"] = stats.get("model_accepted", 0) + 1
-                desc = json.dumps({k: cell[k] for k in ("cd", "ts", "in1", "in2", "e1", "e2")}) if fam == "onehop" else json.dumps(cell["model"])
+                desc = json.dumps({k: cell.get(k) for k in ("cd", "ts", "in1", "in2", "e1", "e2", "fl2")}) if fam == "onehop" else json.dumps(cell["model"])
                 if not res["conf"]:
                     stats["mismatch"] += 1
                     m = res["mis"][0]
@@ -245,7 +248,7 @@ def run(c):
         d["fam"] = "model"
     all_cells += mc
     # one-hop paths: small decision table
-    r = c.tlc(SD, "MC_OneHop", cfg=cfg(c, "mc_onehop.cfg", OH_TMPL.format(fixohexp="TRUE", fixohsec="TRUE", gen="TRUE")), timeout=3000)
+    r = c.tlc(SD, "MC_OneHop", cfg=cfg(c, "mc_onehop.cfg", OH_TMPL.format(fixohexp="TRUE", fixohsec="TRUE", fixohflg="TRUE", gen="TRUE")), timeout=3000)
     for inv in r.violated:
         c.violation("spec:onehop:%s" % inv, "design-level: invariant %s violated on MC_OneHop; see %s" % (inv, r.out_path), {"tlc_out": r.out_path})
     oh = c.printed_json(r, "OHCELL")
@@ -254,8 +257,8 @@ def run(c):
     for d in oh:
         d["fam"] = "onehop"
     all_cells += oh
-    for fe, fs, inv in (("FALSE", "TRUE", "ExpiryTotal"), ("TRUE", "FALSE", "SetSecondAgree")):
-        rb = c.tlc(SD, "MC_OneHop", cfg=cfg(c, "mc_onehop_unfixed_%s.cfg" % inv, OH_TMPL.format(fixohexp=fe, fixohsec=fs, gen="FALSE")), expect_violation=True, coverage=False)
+    for fe, fs, ff, inv in (("FALSE", "TRUE", "TRUE", "ExpiryTotal"), ("TRUE", "FALSE", "TRUE", "SetSecondAgree"), ("TRUE", "TRUE", "FALSE", "SetSecondAgree")):
+        rb = c.tlc(SD, "MC_OneHop", cfg=cfg(c, "mc_onehop_unfixed_%s_%s%s.cfg" % (inv, fs[0], ff[0]), OH_TMPL.format(fixohexp=fe, fixohsec=fs, fixohflg=ff, gen="FALSE")), expect_violation=True, coverage=False)
         if inv not in rb.violated:
             c.fail_tool("oracle self-check failed: the pinned one-hop variant no longer violates %s in the model" % inv)
     # ---- 1b. oracle self-checks: the pinned-commit variants must be refuted -------------------------
